@@ -13,9 +13,10 @@ import (
 func init() { checks["C04"] = runC04 }
 
 type evoVariant struct {
-	name  string
-	added []schema.Field // fields v2 adds (fresh higher indices)
-	undep bool           // v1 marks field 2 deprecated, v2 still transmits it
+	name    string
+	added   []schema.Field // fields v2 adds (fresh higher indices)
+	undep   bool           // v1 marks field 2 deprecated, v2 still transmits it
+	emptyV1 bool           // v1's message declares no fields at all
 }
 
 func sf(n string, t schema.Type) schema.Field { return schema.Field{Name: n, Type: t} }
@@ -31,6 +32,9 @@ func evoVariants() []evoVariant {
 		{name: "undeprecate-only", undep: true},
 		{name: "undeprecate+add", undep: true, added: []schema.Field{smf(9, "added1", schema.Simple("guid")), smf(10, "added2", schema.ArrayOf(schema.Simple("string")))}},
 		{name: "add-255", added: []schema.Field{smf(255, "added1", schema.Simple("date"))}},
+		{name: "fieldless-v1", emptyV1: true, added: []schema.Field{smf(1, "added1", schema.Simple("int32")), smf(2, "added2", schema.Simple("string"))}},
+		{name: "one-field-v1-many-added", added: []schema.Field{smf(4, "a4", schema.Simple("bool")), smf(5, "a5", schema.Simple("float64")), smf(6, "a6", schema.Simple("LeafM")),
+			smf(7, "a7", schema.ArrayOf(schema.Simple("Leaf"))), smf(8, "a8", schema.MapOf("int32", schema.ArrayOf(schema.Simple("string")))), smf(9, "a9", schema.Simple("int16"))}},
 	}
 }
 
@@ -40,6 +44,9 @@ func evoSchema(v evoVariant, v2 bool) *schema.Schema {
 	leafM := &schema.Def{Kind: "message", Name: "LeafM", Fields: []schema.Field{smf(1, "lm", schema.Simple("uint32"))}}
 	evoFields := func() []schema.Field {
 		fs := []schema.Field{smf(1, "a", schema.Simple("int32")), smf(2, "old", schema.Simple("string")), smf(3, "c", schema.Simple("int64"))}
+		if v.emptyV1 {
+			fs = nil
+		}
 		if v.undep && !v2 {
 			fs[1].Deprecated = true
 			fs[1].DepMsg = "v1 no longer wants this"
